@@ -444,6 +444,9 @@ def run(pid: str, tier: str, replay: str | None = None) -> int:
         _mc(rep, "Session", "SessSpec", 3 if thorough else 2, SESS_INVS[pid])
         # ----------------------------------------------------------- B2: simulated behaviours on real objects
         b2_behaviours(rep, 3, num=(6000 if thorough else 600), depth=(16 if thorough else 12))
+        if thorough:
+            # deeper than the exhaustive scopes: behaviours over 5 bounds (unions of up to 6 members)
+            b2_behaviours(rep, 5, num=3000, depth=20)
 
         # ----------------------------------------------------------- MC + B1: Laws (C14, C13)
         if pid in ("C14", "C13"):
